@@ -111,7 +111,7 @@ const SCALARS: &[&str] = &["V0", "V1", "V2", "V3"];
 const PREFIXED: &[&str] = &["UIDX", "LINENO2", "BASH_FOO", "PPID_", "EUID2", "SHELLOPTS_X", "_V", "v0"];
 /// everyday names that a carrier written in bash is tempted to use for its own locals
 /// (`__scrut_persist_state` has `local code=$?`): the user's variables of that name must carry too
-const TEMPLATE_LIKE: &[&str] = &["code", "line", "name", "status", "i"];
+const TEMPLATE_LIKE: &[&str] = &["code", "line", "name", "status", "i", "REPLY"];
 const INTS: &[&str] = &["I0", "I1"];
 const LOWERS: &[&str] = &["L0"];
 const UPPERS: &[&str] = &["U0"];
